@@ -718,7 +718,7 @@ func (s *SwapService) OnSwapInRequestReceived(swapId *SwapId, peerId string, mes
 
 	swap := newSwapInReceiverFSM(swapId, s.swapServices, peerId)
 
-	err = s.lockSwap(swap.SwapId.String(), message.Scid, swap)
+	err = s.lockRequestedSwap(swap.SwapId, message.Scid, swap)
 	if err != nil {
 		// If we already have an active swap on the same channel or can not lock
 		// in a new swap we want to tell it our peer.
@@ -796,7 +796,7 @@ func (s *SwapService) OnSwapOutRequestReceived(swapId *SwapId, peerId string, me
 	}
 
 	swap := newSwapOutReceiverFSM(swapId, s.swapServices, peerId)
-	err = s.lockSwap(swap.SwapId.String(), message.Scid, swap)
+	err = s.lockRequestedSwap(swap.SwapId, message.Scid, swap)
 	if err != nil {
 		// If we already have an active swap on the same channel or can not lock
 		// in a new swap we want to tell it our peer.
@@ -1051,6 +1051,11 @@ func (s *SwapService) lockSwap(swapId, channelId string, fsm *SwapStateMachine) 
 	s.Lock()
 	defer s.Unlock()
 
+	// A swap id belongs to one swap only.
+	if _, ok := s.activeSwaps[swapId]; ok {
+		return fmt.Errorf("swap id %s is already in use", swapId)
+	}
+
 	// Check if we already have an active swap on the same channel
 	for id := range s.activeSwaps {
 		// Channel ids may be written with 'x' (CLN) or ':' (LND) separators.
@@ -1062,6 +1067,22 @@ func (s *SwapService) lockSwap(swapId, channelId string, fsm *SwapStateMachine) 
 	// Add active swap
 	s.activeSwaps[swapId] = fsm
 	s.activeSwapScids[swapId] = channelId
+	return nil
+}
+
+// lockRequestedSwap locks in the swap created for a peer's request. Message
+// handlers run concurrently, so two requests with the same id can both pass
+// rejectKnownSwapId before either swap exists. lockSwap admits only one of
+// them as active swap; the store is looked up again once the id is reserved,
+// as the other swap may already be finished and persisted.
+func (s *SwapService) lockRequestedSwap(swapId *SwapId, channelId string, fsm *SwapStateMachine) error {
+	if err := s.lockSwap(swapId.String(), channelId, fsm); err != nil {
+		return err
+	}
+	if _, err := s.swapServices.swapStore.GetData(swapId.String()); !errors.Is(err, ErrDataNotAvailable) {
+		s.RemoveActiveSwap(swapId.String())
+		return fmt.Errorf("swap id %s is already in use", swapId.String())
+	}
 	return nil
 }
 
